@@ -772,7 +772,7 @@ theorem visitD_wf_all (m : Mode) (env : Env) :
 /-- two sub-visit results agree: same verdict, and — when accepted — the same value afterwards -/
 def Agree (o o' : Out) : Prop := passesL o.1 = passesL o'.1 ∧ (passesL o.1 = true → o.2 = o'.2)
 
-theorem Agree.rfl' (o : Out) : Agree o o := ⟨rfl, fun _ => rfl⟩
+theorem Agree.refl (o : Out) : Agree o o := ⟨rfl, fun _ => rfl⟩
 
 inductive AgreeL : List Out → List Out → Prop
   | nil : AgreeL [] []
@@ -1003,10 +1003,10 @@ theorem ownD_agree (m m' : Mode) (env : Env) (kw : Kw) (p : List (String × S)) 
     (haddl : ∀ k, LookAgree (lookup k addl) (lookup k addl')) :
     Agree (ownD m env kw p v items props addl) (ownD m' env kw p v items' props' addl') := by
   cases v with
-  | null => exact Agree.rfl' _
-  | bool b => exact Agree.rfl' _
-  | num q => exact Agree.rfl' _
-  | str s => exact Agree.rfl' _
+  | null => exact Agree.refl _
+  | bool b => exact Agree.refl _
+  | num q => exact Agree.refl _
+  | str s => exact Agree.refl _
   | arr xs =>
     simp only [ownD]
     constructor
@@ -1289,7 +1289,7 @@ theorem modes_agree_all (m m' : Mode) (env : Env) :
     refine .cons ?_ (ih2 hw hs.2 hx.2)
     split
     · exact ih1 hw hs.1 hx.1
-    · exact Agree.rfl' _
+    · exact Agree.refl _
   case adNone => intro _ _ _ t h; cases h
   case adSome =>
     intro t kvs ih hs hx t' ht x hwx
